@@ -204,6 +204,29 @@ func init() {
 			fn := w.P.funcByName(modPath+"/src/zzv", "M_regexp_SplitSpaces")
 			return w.call(&FuncV{fn: fn}, []Value{args[1]}, nil)
 		},
+		"strings.NewReplacer": func(w *Worker, _ *ssa.Function, args []Value, _ ssa.CallInstruction) Value {
+			return args[0] // the old/new pairs; consumed by the Replace intrinsic
+		},
+		"(*strings.Replacer).Replace": func(w *Worker, _ *ssa.Function, args []Value, _ ssa.CallInstruction) Value {
+			pairs, ok := args[0].(SliceV)
+			if !ok {
+				w.fail("Replacer.Replace on a replacer not built by strings.NewReplacer")
+			}
+			for _, p := range pairs.s {
+				if sv, ok := p.(StrV); !ok || len(sv.b) == 0 && false {
+					w.fail("Replacer pairs")
+				}
+			}
+			fn := w.P.funcByName(modPath+"/src/zzv", "M_Replacer_Replace")
+			return w.call(&FuncV{fn: fn}, []Value{pairs, args[1]}, nil)
+		},
+		"os.Getenv": func(w *Worker, _ *ssa.Function, args []Value, _ ssa.CallInstruction) Value {
+			name, _ := concreteStr(args[0].(StrV))
+			return w.strConst(w.job.CfgS["env:"+name])
+		},
+		"os.Setenv": func(w *Worker, _ *ssa.Function, args []Value, _ ssa.CallInstruction) Value {
+			return IfaceV{} // environment comes from the job configuration (os.Getenv intrinsic)
+		},
 		"runtime.GC":         nop,
 		"runtime.Gosched":    nop,
 		"runtime.KeepAlive":  nop,
